@@ -60,7 +60,7 @@ func main() {
 		cur := p
 		merged := map[string][]byte{}
 		for round := 0; round < 8; round++ {
-			ov, names := core.NormaliseOverlay(cur, rules.AnchorsByName(cur))
+			ov, names := core.NormaliseOverlay(cur, rules.AnchorsByName(cur), core.NormaliseOpts{})
 			if len(ov) == 0 {
 				break
 			}
@@ -214,7 +214,7 @@ func runOne(pr *rules.Property, repo string, cfg core.Config) (rp *core.Report, 
 	// upset a shape rule. The verdict is taken from whichever form discharges more.
 	best := rp
 	for _, mode := range []func(*core.Program) func(*types.Func) bool{rules.Anchors, rules.AnchorsByName} {
-		if rn := runNormalised(pr, repo, cfg, p, mode); rn != nil && nBad(rn) < nBad(best) {
+		if rn := runNormalised(pr, repo, cfg, p, mode); rn != nil && nBad(rn) < nBad(best) && coversRules(rn, rp) {
 			rn.Note("decided on the helper-inlined normal form (expanded: %v); on the tree as written %d obligation(s) did not discharge — positions refer to the regenerated source", rn.P.Inlined, nBad(rp))
 			best = rn
 		}
@@ -268,7 +268,7 @@ func runNormalised(pr *rules.Property, repo string, cfg core.Config, p *core.Pro
 	merged := map[string][]byte{}
 	var inlined []string
 	for round := 0; round < 8; round++ {
-		ov, names := core.NormaliseOverlay(cur, anchors(cur))
+		ov, names := core.NormaliseOverlay(cur, anchors(cur), core.NormaliseOpts{StripRecoverAlways: pr.Meta.ID != "C09"})
 		if len(ov) == 0 {
 			break
 		}
@@ -379,4 +379,21 @@ func firstLineOf(s string) string {
 		return s[:i]
 	}
 	return s
+}
+
+// coversRules: the report on the normal form evaluated every rule the report on the
+// tree as written evaluated (a rule set that silently lost its subject must not look
+// like a rule set that discharged).
+func coversRules(rn, rp *core.Report) bool {
+	have := map[string]bool{}
+	for _, o := range rn.Obs {
+		have[o.Rule] = true
+	}
+	for _, o := range rp.Obs {
+		// rules that only speak up on a violation leave no trace when all is well
+		if o.Status == core.Discharged && !have[o.Rule] {
+			return false
+		}
+	}
+	return true
 }
